@@ -37,6 +37,19 @@ def np_of(M, dt=None):
     return np.array(M, dtype=dt)
 
 
+def relayout(a, how: str):
+    import numpy as np
+    if how == "F":
+        return np.asfortranarray(a)
+    if how == "T":
+        return a.T.copy().T
+    if how == "S":
+        big = np.zeros((2 * a.shape[0], 2 * a.shape[1]), dtype=a.dtype)
+        big[::2, ::2] = a
+        return big[::2, ::2]
+    return a
+
+
 def inst_str(inst) -> str:
     return (f"n={inst.n} lb={int(inst.lower_bound)} ub={int(inst.upper_bound)} dtype={inst.distances.dtype} "
             f"dists={cmat(inst.distances.tolist())} flows={cmat(inst.flows.tolist())}")
@@ -503,6 +516,12 @@ def streams(ck: Check) -> None:
                 Da, Fa = np_of(D, small_dtype(D + F)), np_of(F, small_dtype(D + F))
             else:
                 Da, Fa = np_of(D), np_of(F)
+        if not rect and n > 0:
+            # same values, another memory layout (Fortran order / a transposed or strided view): instances and bounds are
+            # functions of the VALUES (found missing for the TSP constructor by seeded change C05-ravel-memory-order)
+            lay_d, lay_f = ck.rng.choice(("C", "C", "F", "T", "S")), ck.rng.choice(("C", "C", "F", "T", "S"))
+            Da, Fa = relayout(Da, lay_d), relayout(Fa, lay_f)
+            ck.count(f"layout_{lay_d}{lay_f}")
         dom = (not rect) and in_domain(D, F)
         bz = None
         if not rect:
